@@ -131,6 +131,27 @@ example :
     (vRun genCfg (fun _ => false) .h264 { ready := true, frags := [⟨7, 7, false, [0x5c, 0x05, 9]⟩] } (packets264 65534 items)).2.1.length = 5 := by
   decide
 
+/-- C06, start-up of a stream WITHOUT SDP parameter sets (H.264): from the fresh depacketizer the
+    sender's SPS (any the decoder accepts) and PPS, sent as single NAL unit packets, are stored, the
+    depacketizer is ready, and from the PPS on every unit of the stream is handed on exactly as in
+    the round trip.
+    FULL STATEMENT: the SPS is handed on as a frame too.  `_partial`: the first SPS is consumed into
+    the stream's VideoMeta (from which the FLV sequence header and the TS key-frame headers are
+    built) and is NOT handed on as a frame; the harness judges such streams from the parameter-set
+    prefix on (containment mode, `skip`). -/
+theorem c06_startup_h264_partial (spsOk : Bytes → Bool) (s1 s2 seq0 : UInt16) (t1 t2 : UInt32) (m1 m2 : Bool)
+    (b c : UInt8) (bs cs : Bytes) (hb : b &&& 0x1f = 7) (hc : c &&& 0x1f = 8) (hok : spsOk (b :: bs) = true)
+    (items : List Item) (hl : ∀ it ∈ items, legal264F it = true ∧ itemNoFiller it = true) :
+    (vRun genCfg spsOk .h264 {} ([⟨s1, t1, m1, b :: bs⟩, ⟨s2, t2, m2, c :: cs⟩] ++ packets264 seq0 items)).2
+      = (⟨false, t2, 0, c :: cs⟩ :: (units items).map (frameOf 0), .ok) := by
+  have h0 := startup264 genCfg c06_round_cfg spsOk s1 s2 t1 t2 m1 m2 b c bs cs hb hc hok
+  obtain ⟨st', h, _⟩ := h264_roundtrip genCfg c06_round_cfg spsOk items
+    { vmeta := { sps := b :: bs, pps := c :: cs }, ready := true } seq0 rfl hl
+  rw [vRun_append genCfg spsOk .h264 _ _ _ _ _ h0, h]
+  rfl
+
+example : (0x67 : UInt8) &&& 0x1f = 7 ∧ (0x68 : UInt8) &&& 0x1f = 8 := by decide
+
 /-- C06, loss (H.264).  The sender packetises `items` (any decisions, as in the round trip; at
     most 65536 packets, so that 16-bit sequence numbers identify packets) and ANY subset of the
     packets is lost — single or multiple losses, inside or outside fragmented units, start, middle
